@@ -210,6 +210,9 @@ pub fn on_dealloc(ptr: usize, _size: usize) -> bool {
     let w = WATCH_PTR.load(Ordering::Relaxed);
     if w != 0 && ptr == w {
         DEALLOCS.fetch_add(1, Ordering::SeqCst);
+        // only the watched block gets here, and never from inside `record` (which frees nothing
+        // that is watched), so recording from the allocator hook cannot re-enter the trace lock
+        ghost("dealloc");
         return true;
     }
     false
